@@ -41,7 +41,14 @@ Drop ==
   /\ faked' = IF RestoreOnDrop THEN [a \in Asyncs |-> None] ELSE faked
   /\ hist' = Append(hist, [act |-> "Drop"])
 
-Next == New \/ Drop \/ (\E a \in Asyncs : (\E v \in Values : Fake(a, v)) \/ (\E o \in BOOLEAN : Await(a, o)))
+\* the scope that owns the injector unwinds (a panic in user code): same obligations as Drop
+PanicDrop ==
+  /\ alive /\ Len(hist) < MaxSteps
+  /\ alive' = FALSE
+  /\ faked' = IF RestoreOnDrop THEN [a \in Asyncs |-> None] ELSE faked
+  /\ hist' = Append(hist, [act |-> "PanicDrop"])
+
+Next == New \/ Drop \/ PanicDrop \/ (\E a \in Asyncs : (\E v \in Values : Fake(a, v)) \/ (\E o \in BOOLEAN : Await(a, o)))
 Spec == Init /\ [][Next]_avars
 
 \* C14 as invariants of the model
@@ -49,7 +56,7 @@ FakedOnlyWhileAlive == ~alive => \A a \in Asyncs : faked[a] = None
 LastFakeWins ==
   \A a \in Asyncs :
     LET idx == {i \in 1..Len(hist) : hist[i].act = "Fake" /\ hist[i].a = a
-                                     /\ \A j \in i..Len(hist) : hist[j].act # "Drop"}
+                                     /\ \A j \in i..Len(hist) : hist[j].act \notin {"Drop", "PanicDrop"}}
     IN  IF idx = {} THEN faked[a] = None
         ELSE faked[a] = hist[CHOOSE i \in idx : \A j \in idx : j <= i].v
 
